@@ -1,4 +1,5 @@
 import GixModel.Model.C44
+import GixModel.Lemmas.Tree
 /-
 C44 helper lemmas, part r: the `Recorder` fed with the delegate calls of the walk (`Model/C44r.lean`)
 records exactly the changes of `Model/C44.lean`, paths included, and its `path_deque` holds the
@@ -233,5 +234,326 @@ theorem diffEv_run (store : Assoc Bytes (List Entry)) (depth : Nat) (l r : List 
   refine ⟨rs2, ?_, hr2, hd2⟩
   simp only [diffEv]
   rw [runEvs_append_some h1, h2]
+
+/-! ### the byte-string `Recorder` simulates the component-list one (slash-free names) -/
+
+theorem joinPath_snoc (p : Path) (n : Bytes) : C04.joinPath (p ++ [n]) = C04.pushPath (C04.joinPath p) n := by
+  simp [C04.joinPath, List.foldl_append]
+
+theorem dropWhile_ne_slash (n : Bytes) (hn : SlashFree n) (rest : Bytes) :
+    (n.reverse ++ 47 :: rest).dropWhile (fun x => x != 47) = 47 :: rest := by
+  have : ∀ (l : Bytes), (∀ b ∈ l, b ≠ 47) → (l ++ 47 :: rest).dropWhile (fun x => x != 47) = 47 :: rest := by
+    intro l
+    induction l with
+    | nil => intro _; simp [List.dropWhile]
+    | cons a as ih =>
+      intro h
+      have ha : (a != 47) = true := by simpa using h a (by simp)
+      simp only [List.cons_append, List.dropWhile_cons, ha, if_true]
+      exact ih (fun b hb => h b (List.mem_cons_of_mem _ hb))
+  exact this n.reverse (fun b hb => hn b (List.mem_reverse.1 hb))
+
+theorem dropWhile_all_ne_slash (n : Bytes) (hn : SlashFree n) :
+    n.reverse.dropWhile (fun x => x != 47) = [] := by
+  have : ∀ (l : Bytes), (∀ b ∈ l, b ≠ 47) → l.dropWhile (fun x => x != 47) = [] := by
+    intro l
+    induction l with
+    | nil => intro _; rfl
+    | cons a as ih =>
+      intro h
+      have ha : (a != 47) = true := by simpa using h a (by simp)
+      simp only [List.dropWhile_cons, ha, if_true]
+      exact ih (fun b hb => h b (List.mem_cons_of_mem _ hb))
+  exact this n.reverse (fun b hb => hn b (List.mem_reverse.1 hb))
+
+/-- `pop_element` undoes `push_element` of a slash-free name -/
+theorem popElem_pushPath (base n : Bytes) (hn : SlashFree n) : popElem (C04.pushPath base n) = base := by
+  unfold C04.pushPath
+  cases base with
+  | nil => simp [popElem, dropWhile_all_ne_slash n hn]
+  | cons b bs =>
+    have hrev : ((b :: bs) ++ [47] ++ n).reverse = n.reverse ++ 47 :: (b :: bs).reverse := by simp
+    simp only [List.isEmpty_cons, Bool.false_eq_true, if_false, popElem]
+    rw [hrev, dropWhile_ne_slash n hn]
+    simp
+
+theorem popElem_joinPath (p : Path) (hp : ∀ n ∈ p, SlashFree n) :
+    popElem (C04.joinPath p) = C04.joinPath p.dropLast := by
+  rcases List.eq_nil_or_concat p with rfl | ⟨q, n, rfl⟩
+  · rfl
+  · rw [List.concat_eq_append] at hp ⊢
+    rw [List.dropLast_concat, joinPath_snoc, popElem_pushPath _ _ (hp n (by simp))]
+
+/-- the names an event pushes -/
+def evName : Ev → Option Bytes
+  | .push n => some n
+  | .pushBack n => some n
+  | _ => none
+
+def EvSF (evs : List Ev) : Prop := ∀ ev ∈ evs, ∀ n, evName ev = some n → SlashFree n
+
+structure SimB (rs : RS) (rb : RSB) : Prop where
+  path : rb.path = C04.joinPath rs.path
+  deque : rb.deque = rs.deque.map C04.joinPath
+  recs : rb.recs = rs.recs.map Change.toB
+  sfp : ∀ n ∈ rs.path, SlashFree n
+  sfd : ∀ p ∈ rs.deque, ∀ n ∈ p, SlashFree n
+
+theorem toB_withPath (c : RawChange) (p : Path) : (c.withPath p).toB = (c, C04.joinPath p) := by
+  cases c <;> rfl
+
+theorem recStepB_sim {rs rs' : RS} {rb : RSB} (ev : Ev) (hs : SimB rs rb)
+    (hn : ∀ n, evName ev = some n → SlashFree n) (h : recStep rs ev = some rs') :
+    ∃ rb', recStepB rb ev = some rb' ∧ SimB rs' rb' := by
+  obtain ⟨path, deque, recs⟩ := rs
+  obtain ⟨pathB, dequeB, recsB⟩ := rb
+  obtain ⟨h1, h2, h3, h4, h5⟩ := hs
+  simp only at h1 h2 h3 h4 h5
+  subst h1 h2 h3
+  cases ev with
+  | popFront =>
+    cases deque with
+    | nil => simp [recStep] at h
+    | cons p d =>
+      simp only [recStep, Option.some.injEq] at h
+      subst h
+      exact ⟨_, rfl, ⟨rfl, rfl, rfl, fun n hn' => h5 p (by simp) n hn',
+        fun q hq => h5 q (List.mem_cons_of_mem _ hq)⟩⟩
+  | pushBack n =>
+    simp only [recStep, Option.some.injEq] at h
+    subst h
+    have hsf := hn n rfl
+    have hp' : ∀ x ∈ path ++ [n], SlashFree x := by
+      intro x hx
+      rcases List.mem_append.1 hx with hx | hx
+      · exact h4 x hx
+      · simp only [List.mem_singleton] at hx; subst hx; exact hsf
+    refine ⟨_, rfl, ⟨(joinPath_snoc _ _).symm, by simp [joinPath_snoc], rfl, hp', ?_⟩⟩
+    intro q hq
+    rcases List.mem_append.1 hq with hq | hq
+    · exact h5 q hq
+    · simp only [List.mem_singleton] at hq; subst hq; exact hp'
+  | push n =>
+    simp only [recStep, Option.some.injEq] at h
+    subst h
+    have hsf := hn n rfl
+    refine ⟨_, rfl, ⟨(joinPath_snoc _ _).symm, rfl, rfl, ?_, h5⟩⟩
+    intro x hx
+    rcases List.mem_append.1 hx with hx | hx
+    · exact h4 x hx
+    · simp only [List.mem_singleton] at hx; subst hx; exact hsf
+  | pop =>
+    simp only [recStep, Option.some.injEq] at h
+    subst h
+    exact ⟨_, rfl, ⟨popElem_joinPath path h4, rfl, rfl,
+      fun n hn' => h4 n ((List.dropLast_prefix _).subset hn'), h5⟩⟩
+  | visit c =>
+    simp only [recStep, Option.some.injEq] at h
+    subst h
+    exact ⟨_, rfl, ⟨rfl, rfl, by simp [toB_withPath], h4, h5⟩⟩
+
+theorem runEvsB_sim : ∀ (evs : List Ev) (rs rs' : RS) (rb : RSB), SimB rs rb → EvSF evs →
+    runEvs rs evs = some rs' → ∃ rb', runEvsB rb evs = some rb' ∧ SimB rs' rb'
+  | [], rs, rs', rb, hs, _, h => by
+    simp only [runEvs, Option.some.injEq] at h
+    subst h
+    exact ⟨rb, rfl, hs⟩
+  | ev :: evs, rs, rs', rb, hs, hsf, h => by
+    simp only [runEvs] at h
+    cases hr : recStep rs ev with
+    | none => rw [hr] at h; cases h
+    | some rs1 =>
+      rw [hr] at h
+      obtain ⟨rb1, g1, g2⟩ := recStepB_sim ev hs (hsf ev (by simp)) hr
+      obtain ⟨rb2, g3, g4⟩ := runEvsB_sim evs rs1 rs' rb1 g2
+        (fun e he => hsf e (List.mem_cons_of_mem _ he)) h
+      exact ⟨rb2, by simp only [runEvsB, g1]; exact g3, g4⟩
+
+/-! ### the walk only pushes names of entries -/
+
+def NamesSF (t : List Entry) : Prop := ∀ e ∈ t, SlashFree e.name
+
+def StoreSF (S : Assoc Bytes (List Entry)) : Prop := ∀ id t, aget id S = some t → NamesSF t
+
+theorem evSF_nil : EvSF [] := fun _ h => by cases h
+
+theorem evSF_append {a b : List Ev} (ha : EvSF a) (hb : EvSF b) : EvSF (a ++ b) := by
+  intro ev hev
+  rcases List.mem_append.1 hev with h | h
+  · exact ha ev h
+  · exact hb ev h
+
+theorem evSF_of_names {evs : List Ev} {nm : Bytes} (hsf : SlashFree nm)
+    (h : ∀ ev ∈ evs, ∀ n, evName ev = some n → n = nm) : EvSF evs :=
+  fun ev hev n hn => (h ev hev n hn) ▸ hsf
+
+theorem evSF_prePop (pp : Bool) : EvSF (prePop pp) := by
+  cases pp
+  · exact evSF_nil
+  · intro ev hev n hn
+    simp only [prePop, if_true, List.mem_singleton] at hev
+    subst hev
+    cases hn
+
+theorem evSF_deleteEv (rel : Rel) (a : Entry) (acc : Acc) (h : SlashFree a.name) :
+    EvSF (deleteEv rel a acc) := by
+  apply evSF_of_names h
+  intro ev hev n hn
+  by_cases hd : a.isTree = true
+  · simp only [deleteEv, hd, if_true, List.cons_append, List.nil_append, List.mem_cons,
+      List.not_mem_nil, or_false] at hev
+    rcases hev with rfl | rfl | rfl | rfl <;> simp_all [evName]
+  · simp only [deleteEv, hd, if_false, Bool.false_eq_true, List.append_nil, List.mem_cons,
+      List.not_mem_nil, or_false] at hev
+    rcases hev with rfl | rfl <;> simp_all [evName]
+
+theorem evSF_addEv (rel : Rel) (a : Entry) (acc : Acc) (h : SlashFree a.name) :
+    EvSF (addEv rel a acc) := by
+  apply evSF_of_names h
+  intro ev hev n hn
+  by_cases hd : a.isTree = true
+  · simp only [addEv, hd, if_true, List.cons_append, List.nil_append, List.mem_cons,
+      List.not_mem_nil, or_false] at hev
+    rcases hev with rfl | rfl | rfl | rfl <;> simp_all [evName]
+  · simp only [addEv, hd, if_false, Bool.false_eq_true, List.append_nil, List.mem_cons,
+      List.not_mem_nil, or_false] at hev
+    rcases hev with rfl | rfl <;> simp_all [evName]
+
+theorem evSF_equalEv (rel : Rel) (a b : Entry) (acc : Acc) (h : SlashFree a.name) :
+    EvSF (equalEv rel a b acc) := by
+  apply evSF_of_names h
+  intro ev hev n hn
+  cases ev with
+  | push m =>
+    simp only [evName, Option.some.injEq] at hn
+    subst hn
+    cases ha : a.isTree <;> cases hb : b.isTree <;>
+      simp only [equalEv, ha, hb] at hev <;>
+      simp at hev <;>
+      (try exact hev) <;> (try (split at hev <;> simp_all))
+  | pushBack m =>
+    simp only [evName, Option.some.injEq] at hn
+    subst hn
+    cases ha : a.isTree <;> cases hb : b.isTree <;>
+      simp only [equalEv, ha, hb] at hev <;>
+      simp at hev <;>
+      (try exact hev) <;> (try (split at hev <;> simp_all))
+  | popFront => cases hn
+  | pop => cases hn
+  | visit c => cases hn
+
+theorem namesSF_tail {a : Entry} {l : List Entry} (h : NamesSF (a :: l)) : NamesSF l :=
+  fun e he => h e (List.mem_cons_of_mem _ he)
+
+theorem evSF_mergeLevelEv (dir : Path) (rel : Rel) :
+    ∀ (fuel : Nat) (l r : List Entry) (acc : Acc) (pp : Bool), NamesSF l → NamesSF r →
+      EvSF (mergeLevelEv dir rel fuel l r acc pp)
+  | 0, _, _, _, _, _, _ => by simp only [mergeLevelEv]; exact evSF_nil
+  | fuel + 1, [], [], _, pp, _, _ => by simp only [mergeLevelEv]; exact evSF_prePop pp
+  | fuel + 1, a :: l, [], acc, pp, hl, hr => by
+    simp only [mergeLevelEv]
+    exact evSF_append (evSF_append (evSF_prePop pp) (evSF_deleteEv rel a acc (hl a (by simp))))
+      (evSF_mergeLevelEv dir rel fuel l [] _ true (namesSF_tail hl) hr)
+  | fuel + 1, [], b :: r, acc, pp, hl, hr => by
+    simp only [mergeLevelEv]
+    exact evSF_append (evSF_append (evSF_prePop pp) (evSF_addEv rel b acc (hr b (by simp))))
+      (evSF_mergeLevelEv dir rel fuel [] r _ true hl (namesSF_tail hr))
+  | fuel + 1, a :: l, b :: r, acc, pp, hl, hr => by
+    simp only [mergeLevelEv]
+    cases entryCmp a b with
+    | eq =>
+      exact evSF_append (evSF_append (evSF_prePop pp) (evSF_equalEv rel a b acc (hl a (by simp))))
+        (evSF_mergeLevelEv dir rel fuel l r _ true (namesSF_tail hl) (namesSF_tail hr))
+    | lt =>
+      exact evSF_append (evSF_append (evSF_prePop pp) (evSF_deleteEv rel a acc (hl a (by simp))))
+        (evSF_mergeLevelEv dir rel fuel l (b :: r) _ true (namesSF_tail hl) hr)
+    | gt =>
+      exact evSF_append (evSF_append (evSF_prePop pp) (evSF_addEv rel b acc (hr b (by simp))))
+        (evSF_mergeLevelEv dir rel fuel (a :: l) r _ true hl (namesSF_tail hr))
+
+theorem loadItem_namesSF {S : Assoc Bytes (List Entry)} (hS : StoreSF S) {it : QItem}
+    {tl tr : List Entry} (h : loadItem S it = some (tl, tr)) : NamesSF tl ∧ NamesSF tr := by
+  have hnil : NamesSF [] := fun _ h => by cases h
+  unfold loadItem at h
+  cases hl : it.lhs with
+  | none =>
+    cases hr : it.rhs with
+    | none => simp only [hl, hr, Option.some.injEq, Prod.mk.injEq] at h; exact ⟨h.1 ▸ hnil, h.2 ▸ hnil⟩
+    | some r =>
+      simp only [hl, hr] at h
+      cases hg : aget r S with
+      | none => simp [hg] at h
+      | some t =>
+        simp only [hg, Option.map_some, Option.some.injEq, Prod.mk.injEq] at h
+        exact ⟨h.1 ▸ hnil, h.2 ▸ hS r t hg⟩
+  | some l =>
+    cases hr : it.rhs with
+    | none =>
+      simp only [hl, hr] at h
+      cases hg : aget l S with
+      | none => simp [hg] at h
+      | some t =>
+        simp only [hg, Option.map_some, Option.some.injEq, Prod.mk.injEq] at h
+        exact ⟨h.1 ▸ hS l t hg, h.2 ▸ hnil⟩
+    | some r =>
+      simp only [hl, hr] at h
+      cases hg1 : aget l S with
+      | none => simp [hg1] at h
+      | some t1 =>
+        cases hg2 : aget r S with
+        | none => simp [hg1, hg2] at h
+        | some t2 =>
+          simp only [hg1, hg2, Option.some.injEq, Prod.mk.injEq] at h
+          exact ⟨h.1 ▸ hS l t1 hg1, h.2 ▸ hS r t2 hg2⟩
+
+theorem evSF_popFront : EvSF [Ev.popFront] := by
+  intro ev hev n hn
+  simp only [List.mem_singleton] at hev
+  subst hev
+  cases hn
+
+theorem evSF_runLayerEv {S : Assoc Bytes (List Entry)} (hS : StoreSF S) :
+    ∀ (q : List QItem) (acc : Acc), EvSF (runLayerEv S q acc)
+  | [], _ => by simp only [runLayerEv]; exact evSF_nil
+  | it :: rest, acc => by
+    simp only [runLayerEv]
+    cases hl : loadItem S it with
+    | none => exact evSF_popFront
+    | some tt =>
+      obtain ⟨tl, tr⟩ := tt
+      obtain ⟨h1, h2⟩ := loadItem_namesSF hS hl
+      exact evSF_append (evSF_append evSF_popFront (evSF_mergeLevelEv _ _ _ tl tr acc false h1 h2))
+        (evSF_runLayerEv hS rest _)
+
+theorem evSF_runLayersEv {S : Assoc Bytes (List Entry)} (hS : StoreSF S) :
+    ∀ (depth : Nat) (q : List QItem) (recs : List Change) (cid : Nat), EvSF (runLayersEv S depth q recs cid)
+  | 0, _, _, _ => by simp only [runLayersEv]; exact evSF_nil
+  | depth + 1, q, recs, cid => by
+    simp only [runLayersEv]
+    by_cases hq : q.isEmpty = true
+    · rw [if_pos hq]; exact evSF_nil
+    · rw [if_neg hq]
+      apply evSF_append (evSF_runLayerEv hS q _)
+      cases runLayer S q ⟨recs, [], cid⟩ with
+      | none => exact evSF_nil
+      | some acc => exact evSF_runLayersEv hS depth _ _ _
+
+theorem evSF_diffEv {S : Assoc Bytes (List Entry)} (hS : StoreSF S) (depth : Nat) {l r : List Entry}
+    (hl : NamesSF l) (hr : NamesSF r) : EvSF (diffEv S depth l r) := by
+  simp only [diffEv]
+  exact evSF_append (evSF_mergeLevelEv _ _ _ l r _ false hl hr) (evSF_runLayersEv hS depth _ _ _)
+
+/-- The real `Recorder` (byte-string path, `pop_element` cutting at the last `/`) fed with the
+delegate calls of the walk records the walk's records with their paths `/`-joined. -/
+theorem diffEv_runB {S : Assoc Bytes (List Entry)} (hS : StoreSF S) (depth : Nat) {l r : List Entry}
+    (hl : NamesSF l) (hr : NamesSF r) (out : List Change) (h : diff S depth l r = .ok out) :
+    ∃ rb, runEvsB ⟨[], [], []⟩ (diffEv S depth l r) = some rb ∧ rb.recs = out.map Change.toB ∧
+      rb.deque = [] := by
+  obtain ⟨rs, h1, h2, h3⟩ := diffEv_run S depth l r out h
+  obtain ⟨rb, g1, g2⟩ := runEvsB_sim _ ⟨[], [], []⟩ rs ⟨[], [], []⟩
+    ⟨rfl, rfl, rfl, (fun _ hx => by cases hx), (fun _ hx => by cases hx)⟩ (evSF_diffEv hS depth hl hr) h1
+  refine ⟨rb, g1, ?_, ?_⟩
+  · rw [g2.recs, h2]
+  · rw [g2.deque, h3]; rfl
 
 end GixModel.C44
